@@ -462,9 +462,9 @@ Proof.
     + apply (i_shape s I). exact Hu.
 Qed.
 
-Lemma inv_step : forall s l s' o, Inv s -> step strict s l = Some (s', o) -> Inv s'.
+Lemma inv_step : forall s l s' o, basic l = true -> Inv s -> step strict s l = Some (s', o) -> Inv s'.
 Proof.
-  intros s l s' o I St. destruct l.
+  intros s l s' o Ba I St. destruct l; try discriminate Ba.
   - eapply inv_poll; eassumption.
   - eapply inv_pollrx; eassumption.
   - eapply inv_dropsender; eassumption.
@@ -476,8 +476,13 @@ Proof.
       (apply inv_closed; [exact I|discriminate]).
 Qed.
 
-Lemma inv_reachable : forall s0 tr s, Inv s0 -> reachable strict s0 tr s -> Inv s.
-Proof. intros s0 tr s I R. induction R; [exact I|]. eapply inv_step; eassumption. Qed.
+Lemma inv_reachable : forall s0 tr s, Inv s0 -> reachable strict s0 tr s ->
+  forallb basic tr = true -> Inv s.
+Proof.
+  intros s0 tr s I R. induction R as [|tr s l s' o R IH St]; intros B; [exact I|].
+  rewrite forallb_app in B. apply andb_true_iff in B. destruct B as [B1 B2]. cbn in B2.
+  rewrite andb_true_r in B2. eapply inv_step; [exact B2|apply IH; exact B1|exact St].
+Qed.
 
 (* ------------------------------------------------------------------ NoStrand *)
 
@@ -506,22 +511,22 @@ Qed.
 
 Theorem no_strand : forall c progs tr s,
   cap_ok c = true -> single_progs progs = true ->
-  reachable strict (init c progs) tr s -> ~ Stranded s.
+  reachable strict (init c progs) tr s -> forallb basic tr = true -> ~ Stranded s.
 Proof.
-  intros c progs tr s C S R. apply inv_not_stranded.
-  eapply inv_reachable; [|exact R]. apply inv_init; assumption.
+  intros c progs tr s C S R B. apply inv_not_stranded.
+  eapply inv_reachable; [|exact R|exact B]. apply inv_init; assumption.
 Qed.
 
 (* progress form: in every reachable state in which some sender waits for capacity, some task
    is runnable (so a fair executor polls it) -- even if the buffer is full *)
 Theorem waiting_implies_runnable : forall c progs tr s t,
   cap_ok c = true -> single_progs progs = true ->
-  reachable strict (init c progs) tr s ->
+  reachable strict (init c progs) tr s -> forallb basic tr = true ->
   t < ntasks s -> waiting (tasks s t) = true ->
   rx_runnable s = true \/ exists u, u < ntasks s /\ runnable (tasks s u) = true.
 Proof.
-  intros c progs tr s t C S R Lt W.
-  assert (I : Inv s) by (eapply inv_reachable; [|exact R]; apply inv_init; assumption).
+  intros c progs tr s t C S R B Lt W.
+  assert (I : Inv s) by (eapply inv_reachable; [|exact R|exact B]; apply inv_init; assumption).
   destruct (rx_runnable s) eqn:RR; [left; reflexivity|right].
   pose proof (i_parked_sw s I t Lt W) as InT.
   assert (NE : sw s <> []) by (intro E; rewrite E in InT; destruct InT).
